@@ -192,11 +192,36 @@ def check_contract_premises(prog: Program, res: Result) -> None:
     ok = len(d) == 2 and len(pm) >= 3 and _pad_form(d[0], pm[0]) and _pad_form(d[1], pm[1])
     res.ob(R, ok, ap.qualname, "pad = (s - size % s) % s per side", f"padding is computed as {d}", ap.where)
     aps = prog.func(f"{RS}:apply_pad_to_stride")
-    c = [c for c, q in prog.calls_in(aps) if q == ap.qualname]
-    ok = len(c) == 1 and {k_: norm(v_) for k_, v_ in astq.bind_args(ap, c[0]).items()} == {"image_height": "image_height", "image_width": "image_width", "max_stride": "max_stride"}
-    st = [s for s in walk_function(aps.node) if isinstance(s, ast.Assign) and norm(s.value) == "image.shape[-2:]"]
-    ok = ok and len(st) == 1 and [norm(e) for e in st[0].targets[0].elts] == ["image_height", "image_width"]
-    res.ob(R, ok, aps.qualname, "height/width taken from the last two axes in that order", "apply_pad_to_stride mixes up height and width", aps.where)
+    # the pad widths of the F.pad call: (0, pad for the WIDTH axis, 0, pad for the HEIGHT axis), each the padding of its own
+    # axis - through find_padding_for_stride(height, width, stride) or computed in place with the same formula
+    pads = [c for c, q in prog.calls_in(aps) if q == "torch.nn.functional.pad"]
+    ok = len(pads) == 1
+    why = "no single F.pad call"
+    if ok:
+        tup = astq.deref(aps.node, astq.call_arg(pads[0], 1, "pad"))
+        at = enclosing_stmt(pads[0])
+        ok = isinstance(tup, ast.Tuple) and len(tup.elts) == 4
+
+        def axis_of(e) -> str:
+            """which image axis the pad expression belongs to: 'H', 'W' or a description of what else it is"""
+            x = astq.expand_at(aps.node, e, at, unpack_calls=True)
+            if isinstance(x, ast.Subscript) and isinstance(x.value, ast.Call) and prog.resolve_call(aps, x.value) == ap.qualname and astq.const_value(x.slice) in (0, 1):
+                bb = {k_: astq.dims(norm(astq.expand_at(aps.node, v_, at))).replace(" ", "") for k_, v_ in astq.bind_args(ap, x.value).items()}
+                if bb.get(pm[0]) in ("image.shape[-2]", "image.shape[-2:][0]") and bb.get(pm[1]) in ("image.shape[-1]", "image.shape[-2:][1]") and bb.get(pm[2]) == "max_stride":
+                    return "HW"[astq.const_value(x.slice)]
+                return f"find_padding_for_stride({bb})"
+            t = astq.dims(norm(x)).replace(" ", "")
+            for ax, names in (("H", ("image.shape[-2]", "image.shape[-2:][0]")), ("W", ("image.shape[-1]", "image.shape[-2:][1]"))):
+                for nme in names:
+                    if t in (f"(max_stride-{nme}%max_stride)%max_stride", f"-{nme}%max_stride", f"(-{nme})%max_stride", f"(max_stride-({nme}%max_stride))%max_stride"):
+                        return ax
+            return t[:60]
+
+        if ok:
+            got = (axis_of(tup.elts[1]), axis_of(tup.elts[3]))
+            ok = got == ("W", "H")
+            why = f"F.pad pads the last axis by the padding of {got[0]} and the second-to-last by that of {got[1]}"
+    res.ob(R, ok, aps.qualname, "height/width taken from the last two axes in that order", f"apply_pad_to_stride mixes up height and width ({why})", aps.where)
     # every F.pad of the data package pads right/bottom only (also inside contracted functions)
     n_pad = 0
     for f2 in prog.all_functions():
@@ -226,7 +251,9 @@ def check_size(prog: Program, res: Result) -> None:
             bd = astq.deref(fi.node, boxes)
             if isinstance(boxes, ast.Subscript):  # sample["instance_bbox"]
                 defs = [s for s in walk_function(fi.node) if isinstance(s, ast.Assign) and norm(s.targets[0]) == norm(boxes)]
-                bd = defs[0].value if len(defs) == 1 else None
+                bd = astq.expand_at(fi.node, defs[0].value, defs[0]) if len(defs) == 1 else None
+            elif bd is not None:
+                bd = astq.expand_at(fi.node, bd, enclosing_stmt(c)) or bd
             mk = [x for x in ast.walk(bd) if isinstance(x, ast.Call) and norm(x.func).endswith("make_centered_bboxes")] if bd is not None else []
             if not mk:
                 if fi.name == "crop_bboxes":
